@@ -428,6 +428,7 @@ func (c *Ctx) c14Register() {
 				r.Bad("R14.3", "GobRegister", "type-not-recorded", c.Pos(setInserts[0].Pos), "the type is not recorded as registered (true): a repeated registration would change the hash again", shortTrace(p))
 			}
 			registered := false
+			names := map[string]bool{}
 			identity := false
 			for _, ev := range g.events {
 				if ev.Kind == pw.EvCall && ev.Role == "Std:gob.Register" && len(ev.Args) == 1 && ev.Args[0].Kind == pw.KRangeVal {
@@ -435,7 +436,6 @@ func (c *Ctx) c14Register() {
 				}
 				// h.Write([]byte(t.PkgPath() + t.String())): the fingerprint includes the type's identity
 				if ev.Kind == pw.EvCall && ev.Callee != nil && ev.Callee.Name() == "Write" && ev.Recv == hasher && len(ev.Args) == 1 {
-					names := map[string]bool{}
 					var walk func(v *pw.Val, d int)
 					walk = func(v *pw.Val, d int) {
 						if v == nil || d > 6 {
@@ -447,7 +447,7 @@ func (c *Ctx) c14Register() {
 						walk(v.Src, d+1)
 						walk(v.Src2, d+1)
 					}
-					walk(ev.Args[0], 0)
+					walk(ev.Args[0], 0) // (one write of the concatenation or several writes: the same byte stream)
 					if names["PkgPath"] && names["String"] {
 						identity = true
 					}
